@@ -48,7 +48,7 @@ import (
 
 func TestMain(m *testing.M) { ev.Main(m) }
 
-var rec = ev.For("C10", "gopcua client<->server channel pair per case (5 secured policies x Sign/SignAndEncrypt x receiving kind server/client), history of 2-12 tagged messages (single/multi chunk, 0-2 token renewals in between), adversary script of 1-4 operations executed in a MITM tap (re-send one earlier chunk / a whole earlier message after a later message or right after a token renewal, duplicate a chunk immediately, swap two adjacent messages, swap two adjacent chunks); non-trivial = at least one replayed or re-ordered chunk was forwarded to the receiver after chunks it had accepted; distinct by hash of the case")
+var rec = ev.For("C10", "gopcua client<->server channel pair per case (5 secured policies x Sign/SignAndEncrypt x receiving kind server/client), history of 2-12 tagged messages (single/multi chunk, 0-2 token renewals in between), adversary script of 1-4 operations executed in a MITM tap (re-send one earlier chunk / a whole earlier message after a later message or right after a token renewal, duplicate a chunk immediately, swap two adjacent messages, swap two adjacent chunks); in a third of the cases the sender's numbering jumps forward 1-3 times between messages (to about 2^16, 2^24, 2^31-40, 2^31+2000, 3e9, 2^32-70000: long-lived channel / gaps), so that a replayed chunk can lie more than 2^31 behind; non-trivial = at least one replayed or re-ordered chunk was forwarded to the receiver after chunks it had accepted; distinct by hash of the case")
 
 // ---------------------------------------------------------------------------
 // case
@@ -75,7 +75,19 @@ type Case struct {
 	Msgs   []Msg  `json:"msgs"`
 	Renew  []int  `json:"renew"` // a token renewal follows message i (selector mod n-1)
 	Ops    []Op   `json:"ops"`
+	Jumps  []Jump `json:"jumps,omitempty"`
 }
+
+// Jump: after message After (selector mod n) the SENDER continues its
+// numbering from To (hook VerifSetSequenceNumber). Values ascend, so the
+// numbers the receiver sees still increase strictly: a long-lived channel, or
+// a peer that leaves gaps, which the receiver tolerates by design.
+type Jump struct {
+	After int    `json:"after"`
+	To    uint32 `json:"to"`
+}
+
+var jumpMenu = []uint32{1 << 16, 1 << 24, 1<<31 - 40, 1<<31 + 2000, 3000000000, 1<<32 - 70000}
 
 type outcome struct {
 	Infra      string
@@ -296,6 +308,16 @@ func run(c Case) (o outcome) {
 			renewAfter[mod(r, n-1)] = true
 		}
 	}
+	jumpAfter := map[int]uint32{}
+	{
+		last := uint32(0)
+		for _, j := range c.Jumps {
+			if j.To > last+4096 && j.To < 1<<32-66000 { // ascending, and far from the wrap-around window
+				jumpAfter[mod(j.After, n)] = j.To
+				last = j.To
+			}
+		}
+	}
 	sc := newScript(c)
 	ck, sk := mitm.Keys(pol)
 	p, err := chanpair.New(chanpair.Options{Policy: pol, Mode: mitm.Mode(c.Mode), ClientKey: ck, ServerKey: sk,
@@ -367,6 +389,9 @@ func run(c Case) (o outcome) {
 			if err := p.Client.SendRequest(ctx, mitm.Request(i, padOf(i)), nil, nil); err != nil {
 				break // the receiver already stopped
 			}
+			if to, ok := jumpAfter[i]; ok {
+				p.Client.VerifSetSequenceNumber(to)
+			}
 			if renewAfter[i] {
 				if err := p.Client.Renew(ctx); err != nil {
 					break
@@ -404,6 +429,9 @@ func run(c Case) (o outcome) {
 				if err := p.Server.SendResponseWithContext(ctx, r.Msg.RequestID, mitm.Response(req.Header().RequestHandle, tag, padOf(tag))); err != nil {
 					served <- -1
 					return
+				}
+				if to, ok := jumpAfter[tag]; ok {
+					p.Server.VerifSetSequenceNumber(to)
 				}
 				served <- tag
 			}
@@ -563,6 +591,24 @@ func run(c Case) (o outcome) {
 	if crossRenewal {
 		o.Classes = append(o.Classes, "replay-crosses-renewal")
 	}
+	o.Classes = append(o.Classes, fmt.Sprintf("jumps=%d", len(jumpAfter)))
+	if firstBad >= 0 && log[firstBad].Msg >= 0 {
+		// the numbering moved on by more than 2^31 between the original and its copy
+		far := false
+		for k, to := range jumpAfter {
+			if k < log[firstBad].Msg || to < 1<<31+1024 {
+				continue
+			}
+			for i := 0; i < firstBad; i++ {
+				if log[i].Msg > k {
+					far = true
+				}
+			}
+		}
+		if far {
+			o.Classes = append(o.Classes, "replayed-chunk-more-than-2^31-behind")
+		}
+	}
 	o.Note = fmt.Sprintf("forwarded=%d illegitimate=%d first=%d (%s) delivered=%d firstErr=%s", len(log), nbad, firstBad, opClass, len(delivered), firstErr)
 
 	if panicked != "" {
@@ -689,6 +735,16 @@ func genCase(t *rapid.T, kind string) Case {
 		op.Chunk = rapid.IntRange(0, 2).Draw(t, "chunk")
 		op.At = rapid.IntRange(0, n-1).Draw(t, "at")
 		c.Ops = append(c.Ops, op)
+	}
+	if rapid.IntRange(0, 2).Draw(t, "jumps") == 0 {
+		nj := rapid.IntRange(1, 3).Draw(t, "njumps")
+		after := rapid.IntRange(0, n-1).Draw(t, "jumpAfter")
+		mi := rapid.IntRange(0, len(jumpMenu)-1).Draw(t, "jumpTo")
+		for i := 0; i < nj && after < n && mi < len(jumpMenu); i++ {
+			c.Jumps = append(c.Jumps, Jump{After: after, To: jumpMenu[mi] + uint32(rapid.IntRange(0, 3000).Draw(t, "jumpOff"))})
+			after += rapid.IntRange(1, 4).Draw(t, "jumpGap")
+			mi += rapid.IntRange(1, 3).Draw(t, "jumpStep")
+		}
 	}
 	return c
 }
